@@ -933,6 +933,27 @@ func GenK(t *rapid.T, prop string) *KCase {
 			steps = append(steps, KStep{K: "hold"})
 			inBurst = rapid.IntRange(2, 8).Draw(t, "burstlen")
 		}
+		if inBurst == 0 && engine.Pct(t, "rewatch", 6) {
+			// the watch on a directory is removed, the directory changes while
+			// nobody watches, the watch is added again: what exists then is not
+			// new, what is created afterwards is
+			d := rapid.SampledFrom([]string{d0, "d1"}).Draw(t, "rwdir")
+			real := filepath.Clean(d)
+			if real == "ld0" {
+				real = "d0"
+			}
+			victim := real + "/" + rapid.SampledFrom(kNames).Draw(t, "rwname")
+			steps = append(steps, KStep{K: "remove", P: engine.P(d)}, KStep{K: "unlink", P: engine.P(victim)}, KStep{K: "sync"},
+				KStep{K: "create", P: engine.P(real + "/while-away")}, KStep{K: "sync"},
+				KStep{K: "add", P: engine.P(d)}, KStep{K: "create", P: engine.P(victim)}, KStep{K: "sync"},
+				KStep{K: "write", P: engine.P(victim)}, KStep{K: "sync"}, KStep{K: "unlink", P: engine.P(real + "/while-away")}, KStep{K: "sync"})
+			if kind[victim] == 'd' {
+				// (unlink of a directory fails; the create then fails too: harmless)
+			} else {
+				kind[victim] = 'f'
+			}
+			continue
+		}
 		r := rapid.IntRange(0, 99).Draw(t, "op")
 		var s KStep
 		if nested != "" && kind[nested] == 'd' && rapid.IntRange(0, 3).Draw(t, "innested") == 0 {
